@@ -1060,6 +1060,54 @@ func runStampCrash(cfg *config, id int, r *hx.Rng) {
 	cfg.st.Add("statements", 2*rounds)
 }
 
+// runBulk: a burst of inserts with NO flush in between - hundreds of dirty pages, more than any batch
+// size a flush could be cut into - and then the one flush that the code relies on being complete: an
+// explicit flush followed by a crash and recovery (crash = true), or the flush of Close followed by a
+// reload.  A flush that writes only some of the dirty pages (and the header) leaves a file that is a
+// mixture of two tree states: rows are lost, trees are malformed, recovery may not end.
+func runBulk(cfg *config, id int, r *hx.Rng, rows int, crash bool) {
+	cfg.tr.Case(id)
+	d := &rdb{cfg: cfg, name: fmt.Sprintf("bulk%d", id)}
+	defer d.close()
+	d.createdb()
+	a := &gtable{name: "t1", cols: []gcol{{"c0", "int"}}}
+	b := &gtable{name: "t2", cols: []gcol{{"c0", "int"}}}
+	d.stmt(createText(a))
+	d.stmt(createText(b))
+	d.flush()
+	total := 0
+	for total < rows {
+		n := r.Range(60, 120)
+		var rs [][]interface{}
+		for k := 0; k < n; k++ {
+			rs = append(rs, []interface{}{int64(total + k)})
+		}
+		t := a
+		if r.Chance(1, 3) {
+			t = b
+		}
+		d.stmt(insertText(t, rs, false))
+		total += n
+	}
+	if crash {
+		d.flush()
+		d.crash()
+		if d.recoverDB() != "ok" {
+			return
+		}
+	} else {
+		d.reopen()
+	}
+	d.selectEvery()
+	d.roots()
+	d.stmt(insertText(a, [][]interface{}{{int64(3000000)}}, false))
+	d.selectEvery()
+	d.dump()
+	d.roots()
+	cfg.st.Seen("bulk", true)
+	cfg.st.Add("statements", total/90)
+}
+
 func runPointOps(cfg *config, id int, r *hx.Rng) {
 	cfg.tr.Case(id)
 	d := &rdb{cfg: cfg, name: fmt.Sprintf("pt%d", id)}
@@ -1249,6 +1297,8 @@ func runDB(cfg *config) {
 		// one history deep enough for an internal-node split (two in the thorough tier)
 		id++
 		runDeep(cfg, id, r.Fork(), 1900, false)
+		id++
+		runBulk(cfg, id, r.Fork(), 2600, false)
 		if cfg.tier == "thorough" {
 			id++
 			runDeep(cfg, id, r.Fork(), 2900, false)
@@ -1314,6 +1364,8 @@ func runDB(cfg *config) {
 		}
 	case "c02":
 		n := 12 * cfg.scale
+		id++
+		runBulk(cfg, id, r.Fork(), 800, true)
 		for i := 0; i < 4*cfg.scale; i++ {
 			id++
 			runStampCrash(cfg, id, r.Fork())
